@@ -1,5 +1,493 @@
 import GnpyModel.Scalar
-/- model file Response (see DESIGN.md §2) -/
-namespace Gnpy
+import GnpyModel.RoundHE
+import GnpyModel.Verdict
+/-
+C19 — the reported response (gnpy/topology/request.py `ResultElement`, `requests_aggregation`, `compare_reqs`,
+`jsontocsv`, `_jsontoparams`, `_jsontopath_metric`, `get_penalty_from_receiver`; gnpy/tools/json_io.py
+`results_to_json`).  Inputs of the model: the request objects as planning left them, the propagated paths
+(element uids, which elements are transceivers) and the receivers' per-channel figures.
+-/
+namespace Gnpy.Response
+open Gnpy.HE
+open Gnpy.Verdict (Pen)
 
-end Gnpy
+/-- JSON tree (numbers that are floats in Python are `num`, ints are `int`) -/
+inductive J (α : Type) where
+  | null
+  | bool (b : Bool)
+  | int (i : Int)
+  | num (x : α)
+  | str (s : String)
+  | arr (l : List (J α))
+  | obj (l : List (String × J α))
+
+namespace J
+variable {α : Type}
+/-- `d[k]` -/
+def get? (j : J α) (k : String) : Option (J α) :=
+  match j with
+  | .obj l => l.lookup k
+  | _ => none
+def hasKey (j : J α) (k : String) : Bool := (j.get? k).isSome
+def items? : J α → Option (List (J α))
+  | .arr l => some l
+  | _ => none
+def str? : J α → Option String
+  | .str s => some s
+  | _ => none
+end J
+
+section numeric
+variable {α : Type} [Add α] [Sub α] [Mul α] [Div α] [Neg α] [NatCast α] [LT α] [LE α]
+  [DecidableLT α] [DecidableLE α] [Transc α] [Rint α]
+
+/-- `numpy.mean` -/
+def mean (l : List α) : α := sumL l / ((l.length : Nat) : α)
+
+def minL : List α → Option α
+  | [] => none
+  | x :: xs => some (xs.foldl (fun a b => if b < a then b else a) x)
+def maxL : List α → Option α
+  | [] => none
+  | x :: xs => some (xs.foldl (fun a b => if a < b then b else a) x)
+
+/-- the receiver (last element of a propagated path): per-channel figures and the penalties dict -/
+structure Recv (α : Type) where
+  snr : List α
+  snr01 : List α
+  osnrAse : List α
+  osnrAse01 : List α
+  pens : List (String × List (Pen α))
+
+/-- `get_penalty_from_receiver`: `'not evaluated'`, `"Infinity"`, or `round(mean(penalties), 2)` -/
+def penMetric (r : Recv α) (imp : String) : J α :=
+  match r.pens.lookup imp with
+  | none => .str "not evaluated"
+  | some ps =>
+    if ps.any (fun p => match p with | .inf => true | .fin _ => false) then .str "Infinity"
+    else .num (round2 (mean (ps.map (fun p => match p with | .fin v => v | .inf => ((0:Nat) : α)))))
+
+def metricEntry (name : String) (v : J α) : J α := .obj [("metric-type", .str name), ("accumulative-value", v)]
+
+def optNum (o : Option α) : J α := match o with | some v => .num (round2 v) | none => .null
+
+/-- `path_metric(pth, req)`: the eleven metrics, in the code's order, all read from `pth[-1]` -/
+def pathMetric (r : Recv α) (power pathBandwidth : α) : J α :=
+  .arr [ metricEntry "SNR-bandwidth" (.num (round2 (mean r.snr))),
+         metricEntry "SNR-0.1nm" (.num (round2 (mean r.snr01))),
+         metricEntry "OSNR-bandwidth" (.num (round2 (mean r.osnrAse))),
+         metricEntry "OSNR-0.1nm" (.num (round2 (mean r.osnrAse01))),
+         metricEntry "lowest_SNR-0.1nm" (optNum (minL r.snr01)),
+         metricEntry "biggest_SNR-0.1nm" (optNum (maxL r.snr01)),
+         metricEntry "PDL_penalty" (penMetric r "pdl"),
+         metricEntry "CD_penalty" (penMetric r "chromatic_dispersion"),
+         metricEntry "PMD_penalty" (penMetric r "pmd"),
+         metricEntry "reference_power" (.num power),
+         metricEntry "path_bandwidth" (.num pathBandwidth) ]
+
+/-- an element of a propagated path -/
+structure El where
+  uid : String
+  isTrx : Bool
+
+/-- the request object after planning -/
+structure Req (α : Type) where
+  id : String
+  bidir : Bool
+  tsp : String
+  tspMode : Option String
+  blocking : Option String            -- `hasattr(req, 'blocking_reason')`
+  n : Option (List (Option Int))
+  m : Option (List (Option Int))
+  power : α
+  pathBandwidth : α
+
+def blockingNoPath : List String :=
+  ["NO_PATH", "NO_PATH_WITH_CONSTRAINT", "NO_FEASIBLE_BAUDRATE_WITH_SPACING", "NO_COMPUTED_SNR"]
+
+def jOptInt : Option Int → J α
+  | some i => .int i
+  | none => .null
+def jOptStr : Option String → J α
+  | some s => .str s
+  | none => .null
+
+def pro (l : List (String × J α)) : J α := .obj [("path-route-object", .obj l)]
+
+/-- the loop body of `detailed_path_json` for the remaining elements; `labels` = `some label-hop list` when the
+request is not blocked -/
+def hopObjs (tsp : String) (mode : Option String) (labels : Option (J α)) : Nat → List El → List (J α)
+  | _, [] => []
+  | idx, e :: rest =>
+    let hop : J α := pro [("index", .int idx),
+                          ("num-unnum-hop", .obj [("node-id", .str e.uid), ("link-tp-id", .str e.uid)])]
+    let lab : List (J α) := match labels with
+      | some l => [pro [("index", .int (idx + 1)), ("label-hop", l)]]
+      | none => []
+    let idx1 := idx + 1 + lab.length
+    let tr : List (J α) :=
+      if e.isTrx then [pro [("index", .int idx1),
+                            ("transponder", .obj [("transponder-type", .str tsp),
+                                                  ("transponder-mode", jOptStr mode)])]]
+      else []
+    hop :: (lab ++ tr ++ hopObjs tsp mode labels (idx1 + tr.length) rest)
+
+/-- `ResultElement.detailed_path_json` (`ServiceError` when labels and blocking state disagree) -/
+def detailedPath (req : Req α) (path : List El) : Except String (List (J α)) :=
+  match path with
+  | [] => .ok []
+  | _ =>
+    match req.blocking with
+    | none =>
+      match req.n, req.m with
+      | some n, some m =>
+        let lab : J α := .arr ((n.zip m).map (fun nm => .obj [("N", jOptInt nm.1), ("M", jOptInt nm.2)]))
+        .ok (hopObjs req.tsp req.tspMode (some lab) 0 path)
+      | _, _ => .error "ServiceError"
+    | some _ =>
+      match req.n, req.m with
+      | none, none => .ok (hopObjs req.tsp req.tspMode none 0 path)
+      | _, _ => .error "ServiceError"
+
+/-- `ResultElement.path_properties` -/
+def pathProperties (req : Req α) (path : List El) (fwd : Option (Recv α)) (rev : Option (Recv α)) :
+    Except String (J α) :=
+  match fwd with
+  | none => .error "IndexError"
+  | some f =>
+    if req.bidir then
+      match rev with
+      | none => .error "IndexError"
+      | some r =>
+        match detailedPath req path with
+        | .error e => .error e
+        | .ok d => .ok (.obj [("path-metric", pathMetric f req.power req.pathBandwidth),
+                              ("z-a-path-metric", pathMetric r req.power req.pathBandwidth),
+                              ("path-route-objects", .arr d)])
+    else
+      match detailedPath req path with
+      | .error e => .error e
+      | .ok d => .ok (.obj [("path-metric", pathMetric f req.power req.pathBandwidth),
+                            ("path-route-objects", .arr d)])
+
+/-- `ResultElement.pathresult` (= `.json`): the three shapes -/
+def pathResult (req : Req α) (path : List El) (fwd rev : Option (Recv α)) : Except String (J α) :=
+  match req.blocking with
+  | some b =>
+    if blockingNoPath.contains b then
+      .ok (.obj [("response-id", .str req.id), ("no-path", .obj [("no-path", .str b)])])
+    else
+      match pathProperties req path fwd rev with
+      | .error e => .error e
+      | .ok p => .ok (.obj [("response-id", .str req.id),
+                            ("no-path", .obj [("no-path", .str b), ("path-properties", p)])])
+  | none =>
+    match pathProperties req path fwd rev with
+    | .error e => .error e
+    | .ok p => .ok (.obj [("response-id", .str req.id), ("path-properties", p)])
+
+/-- one planning result: request, propagated path, receivers -/
+structure Res (α : Type) where
+  req : Req α
+  path : List El
+  fwd : Option (Recv α)
+  rev : Option (Recv α)
+
+/-- `results_to_json`: one entry per result, in order -/
+def resultsToJson (rs : List (Res α)) : Except String (List (J α)) :=
+  rs.mapM (fun r => pathResult r.req r.path r.fwd r.rev)
+
+end numeric
+
+/-! ## batch acceptance (worker_utils.check_request_path_ids, request.correct_json_route_list) -/
+
+/-- in the order `planning` meets them: a request naming an unknown transceiver type → EquipmentConfigError
+(`requests_from_json`); duplicate request ids → ValueError; unknown source/destination transceiver → ServiceError; an
+include node that is not a non-transceiver node of the topology → ServiceError when STRICT (skipped when LOOSE) -/
+def batchCheck (trxKnown : List Bool) (ids : List String) (endpointsKnown : List Bool)
+    (strictUnknownInclude : List Bool) : Option String :=
+  if trxKnown.any (fun b => !b) then some "EquipmentConfigError"
+  else if ids.eraseDups.length ≠ ids.length then some "ValueError"
+  else if endpointsKnown.any (fun b => !b) then some "ServiceError"
+  else if strictUnknownInclude.any id then some "ServiceError"
+  else none
+
+/-! ## requests_aggregation -/
+
+/-- what `compare_reqs` looks at (everything except id, bandwidth, N/M, bidir, cost …) is bundled in `key`;
+`parts` = the ids joined so far (rendered with `" | "`) -/
+structure AReq (κ α : Type) where
+  pos : Nat                 -- position in the original request list
+  parts : List String
+  key : κ
+  hasMode : Bool            -- `tsp_mode is not None`
+  bw : α
+  n : List (Option Int)
+  m : List (Option Int)
+
+def AReq.idStr {κ α : Type} (r : AReq κ α) : String := " | ".intercalate r.parts
+
+section aggregation
+variable {κ α : Type} [DecidableEq κ] [Add α]
+
+/-- `this_r` absorbs `req`: bandwidths summed, N/M concatenated, id joined (`this_r` first) -/
+def absorb (thisR req : AReq κ α) : AReq κ α :=
+  { thisR with bw := thisR.bw + req.bw, n := thisR.n ++ req.n, m := thisR.m ++ req.m,
+               parts := thisR.parts ++ req.parts }
+
+/-- the inner `for this_r in local_list` : the first `this_r` with a different id, equal compared fields (no
+disjunctions: `same_disj` is True) and a mode absorbs `req`; returns the updated list or `none` (no partner) -/
+def absorbInto (req : AReq κ α) : List (AReq κ α) → Option (List (AReq κ α))
+  | [] => none
+  | t :: rest =>
+    if req.idStr ≠ t.idStr ∧ req.key = t.key ∧ t.hasMode = true then some (absorb t req :: rest)
+    else (absorbInto req rest).map (t :: ·)
+
+/-- one turn of the outer `for req in pathreqlist` for the request at original position `i`: the object is looked up
+in its CURRENT state (it may have absorbed earlier requests), a partner is searched in `local_list` order, and on
+success `req` is removed from `local_list` -/
+def aggStep (loc : List (AReq κ α)) (i : Nat) : List (AReq κ α) :=
+  match loc.find? (fun r => r.pos == i) with
+  | none => loc
+  | some req =>
+    match absorbInto req loc with
+    | none => loc
+    | some l' => l'.filter (fun r => r.pos != i)
+
+/-- `requests_aggregation(pathreqlist, [])` -/
+def requestsAggregation (rs : List (AReq κ α)) : List (AReq κ α) :=
+  (List.range rs.length).foldl aggStep rs
+
+end aggregation
+
+/-! ## requests_aggregation with disjunctions -/
+
+/-- a disjunction (synchronization vector): id and the request ids it lists -/
+structure Disj where
+  id : String
+  reqs : List String
+
+/-- `temp = []; for d in dis: temp.extend(d.disjunctions_req); temp.remove(rid)` -/
+def othersOf (ds : List Disj) (rid : String) : List String :=
+  ds.foldl (fun acc d => (acc ++ d.reqs).erase rid) []
+
+def sameSet (a b : List String) : Bool := a.all (fun x => b.contains x) && b.all (fun x => a.contains x)
+
+/-- the `same_disj` flag of `compare_reqs` -/
+def sameDisj (ds : List Disj) (id1 id2 : String) : Bool :=
+  let d1 := ds.filter (fun d => d.reqs.contains id1)
+  let d2 := ds.filter (fun d => d.reqs.contains id2)
+  if !d1.isEmpty && !d2.isEmpty then sameSet (othersOf d1 id1) (othersOf d2 id2)
+  else d1.isEmpty && d2.isEmpty
+
+section
+variable {κ α : Type} [DecidableEq κ] [Add α]
+
+/-- inner loop with disjunctions: returns the updated list and the absorbing request's OLD and NEW id -/
+def absorbIntoD (ds : List Disj) (req : AReq κ α) : List (AReq κ α) → Option (List (AReq κ α) × String × String)
+  | [] => none
+  | t :: rest =>
+    if req.idStr ≠ t.idStr ∧ req.key = t.key ∧ sameDisj ds req.idStr t.idStr = true ∧ t.hasMode = true then
+      some (absorb t req :: rest, t.idStr, (absorb t req).idStr)
+    else (absorbIntoD ds req rest).map (fun x => (t :: x.1, x.2))
+
+/-- `d.disjunctions_req.remove(x); d.disjunctions_req.append(y)` when `x in d.disjunctions_req` -/
+def renameIn (x y : String) (d : Disj) : Disj :=
+  if d.reqs.contains x then { d with reqs := d.reqs.erase x ++ [y] } else d
+
+/-- one turn of the outer loop, with the disjunction bookkeeping (as repaired in /repo 35835fb6): in every
+disjunction the absorbed request's id, and then the absorbing request's OLD id, are replaced by the joined id; no
+disjunction is dropped -/
+def aggStepD (st : List (AReq κ α) × List Disj) (i : Nat) : List (AReq κ α) × List Disj :=
+  match st.1.find? (fun r => r.pos == i) with
+  | none => st
+  | some req =>
+    match absorbIntoD st.2 req st.1 with
+    | none => st
+    | some (l', oldId, newId) =>
+      let ds1 := st.2.map (renameIn req.idStr newId)
+      let ds2 := ds1.map (renameIn oldId newId)
+      (l'.filter (fun r => r.pos != i), ds2)
+
+/-- `requests_aggregation(pathreqlist, disjlist)` -/
+def requestsAggregationD (rs : List (AReq κ α)) (ds : List Disj) : List (AReq κ α) × List Disj :=
+  (List.range rs.length).foldl aggStepD (rs, ds)
+
+end
+/-! ## jsontocsv -/
+
+section csv
+variable {α : Type} [Add α] [Sub α] [Mul α] [Div α] [Neg α] [NatCast α] [LT α] [LE α]
+  [DecidableLT α] [DecidableLE α] [Transc α] [Rint α]
+
+/-- `read_property` -/
+def readProperty (metrics : List (J α)) (name : String) : J α :=
+  match metrics.find? (fun e => match e.get? "metric-type" with | some (.str s) => s == name | _ => false) with
+  | some e => (e.get? "accumulative-value").getD (.str "")
+  | none => .str ""
+
+/-- `round(x, 2)` of a value read from the response: only numbers can be rounded (`TypeError` otherwise) -/
+def roundJ (j : J α) : Except String (J α) :=
+  match j with
+  | .num x => .ok (.num (round2 x))
+  | .int i => .ok (.int i)
+  | _ => .error "TypeError"
+
+/-- library facts `_jsontoparams` needs about one transceiver mode -/
+structure ModeInfo (α : Type) where
+  trxType : String
+  format : String
+  osnr : α
+  baudRate : α
+  bitRate : α
+  cost : J α
+
+def giga : α := ((1:Nat) : α) / ((1000000000:Nat) : α)
+
+/-- `_jsontopath_metric`: (osnr, snr, snr_bw, snr_min, snr_max, pdl, cd, pmd, power_dBm, path_bandwidth_G) -/
+def jsonToPathMetric (metrics : List (J α)) : Except String (List (J α)) := do
+  let osnr ← roundJ (readProperty metrics "OSNR-0.1nm")
+  let snr ← roundJ (readProperty metrics "SNR-0.1nm")
+  let snrbw ← roundJ (readProperty metrics "SNR-bandwidth")
+  let power ← match readProperty metrics "reference_power" with
+    | .num p => pure (J.num (round2 (watt2dbm p)))
+    | _ => throw "TypeError"
+  let pbw ← match readProperty metrics "path_bandwidth" with
+    | .num b => pure (J.num (round2 (b * giga)))
+    | _ => throw "TypeError"
+  return [osnr, snr, snrbw, readProperty metrics "lowest_SNR-0.1nm", readProperty metrics "biggest_SNR-0.1nm",
+          readProperty metrics "PDL_penalty", readProperty metrics "CD_penalty", readProperty metrics "PMD_penalty",
+          power, pbw]
+
+def pyIntList (l : List (J α)) : String :=
+  "[" ++ ", ".intercalate (l.map (fun j => match j with | .int i => toString i | _ => "None")) ++ "]"
+
+def dedup (l : List String) : List String := l.foldl (fun acc s => if acc.contains s then acc else acc ++ [s]) []
+
+def proOf (e : J α) : J α := (e.get? "path-route-object").getD .null
+
+/-- `>=` on two row values that must be numbers -/
+def geJ (a b : J α) : Except String Bool :=
+  match a, b with
+  | .num x, .num y => .ok (decide (y ≤ x))
+  | _, _ => .error "TypeError"
+
+/-- ceil(a / b) as the harness-side integer is not representable polymorphically; the number of transponder pairs is
+returned as the quotient `a / b` and the driver applies `ceil` (class D near integers) -/
+def quot (a b : J α) : Except String α :=
+  match a, b with
+  | .num x, .num y => .ok (x / y)
+  | _, _ => .error "TypeError"
+
+/-- the fifteen `jsontoparamsfields` values from the ten `_jsontopath_metric` values, the library mode, the margin,
+the hop string and the spectrum string -/
+def paramVals (pm : List (J α)) (mode : ModeInfo α) (margin : α) (pth sptrm : String) : Option (List (J α)) :=
+  match pm with
+  | [osnr, snr, snrbw, smin, smax, pdl, cd, pmd, power, pbw] =>
+    some [pbw, osnr, snr, snrbw, smin, smax, pdl, cd, pmd, .num (mode.osnr + margin),
+          .num (round2 (mode.baudRate * giga)), power, .str pth, .str sptrm, .num (round2 (mode.bitRate * giga))]
+  | _ => none
+
+/-- `values['Pass?'] = rsnr_min >= minosnr if rsnr_min != '' else rsnr >= minosnr` -/
+def passFlag (rsnrMin rsnr minosnr : J α) : Except String Bool :=
+  match rsnrMin with
+  | .str "" => geJ rsnr minosnr
+  | _ => geJ rsnrMin minosnr
+
+/-- the fifteen `jsontoparamsfields` values and the cost -/
+def jsonToParams (props : J α) (trxType : String) (trxMode : Option String) (lib : List (ModeInfo α)) (margin : α) :
+    Except String (List (J α) × J α) := do
+  let pros := ((props.get? "path-route-objects").bind J.items?).getD []
+  let hops := pros.filterMap (fun e => ((proOf e).get? "num-unnum-hop").bind (fun h => (h.get? "node-id").bind J.str?))
+  let pth := " | ".intercalate hops
+  let labs := pros.filterMap (fun e => ((proOf e).get? "label-hop").bind J.items?)
+  let sp := labs.map (fun l => pyIntList (l.map (fun e => (e.get? "N").getD .null)) ++ ", "
+                                ++ pyIntList (l.map (fun e => (e.get? "M").getD .null)))
+  let sptrm := " | ".intercalate (dedup sp)
+  let mode ← match trxMode with
+    | none => throw "TypeError"          -- `'' + sys_margins`
+    | some f => match lib.find? (fun m => m.trxType == trxType && m.format == f) with
+      | some m => pure m
+      | none => throw "StopIteration"
+  let pm ← jsonToPathMetric (((props.get? "path-metric").bind J.items?).getD [])
+  match paramVals pm mode margin pth sptrm with
+  | some vals => return (vals, mode.cost)
+  | none => throw "internal"
+
+/-- one CSV row as an association list field → value (missing fields are the empty string) -/
+structure Row (α : Type) where
+  fields : List (String × J α)
+
+def paramFields : List String :=
+  ["path_bandwidth", "OSNR-0.1nm (average)", "SNR-0.1nm (average)", "SNR-bandwidth (average)", "SNR-0.1nm (min)",
+   "SNR-0.1nm (max)", "PDL_penalty", "CD_penalty", "PMD_penalty", "min required OSNR (inc. margin)",
+   "baud rate (Gbaud)", "input power (dBm)", "path", "spectrum (N,M)", "bit rate"]
+
+def revFields : List String :=
+  ["reversed path OSNR-0.1nm (average)", "reversed path SNR-0.1nm (average)", "reversed path SNR-bandwidth (average)",
+   "reversed path SNR-0.1nm (min)", "reversed path SNR-0.1nm (max)", "reversed path PDL_penalty",
+   "reversed path CD_penalty", "reversed path PMD_penalty"]
+
+/-- `_get_srce_dest_trx` with Python's negative index for the receiver hop -/
+def srceDestTrx (pros : List (J α)) (emitter : Nat) (fromEnd : Nat) :
+    Except String (String × String × String × Option String) := do
+  let nodeOf (e : J α) : Except String String :=
+    match ((proOf e).get? "num-unnum-hop").bind (fun h => (h.get? "node-id").bind J.str?) with
+    | some s => pure s
+    | none => throw "KeyError"
+  let first ← match pros.head? with | some e => pure e | none => throw "IndexError"
+  let src ← nodeOf first
+  let recvIdx ← if fromEnd ≤ pros.length then pure (pros.length - fromEnd) else throw "IndexError"
+  let dst ← match pros[recvIdx]? with | some e => nodeOf e | none => throw "IndexError"
+  let tsp ← match pros[emitter]? with
+    | some e => match (proOf e).get? "transponder" with | some t => pure t | none => throw "KeyError"
+    | none => throw "IndexError"
+  let ty ← match (tsp.get? "transponder-type").bind J.str? with | some s => pure s | none => throw "KeyError"
+  let md := (tsp.get? "transponder-mode").bind J.str?
+  return (src, dst, ty, md)
+
+/-- one response element → the values `jsontocsv` writes. `nbTsp` is returned separately (quotient before `ceil`). -/
+def csvRow (resp : J α) (lib : List (ModeInfo α)) (margin : α) : Except String (Row α × Option α × J α) := do
+  let rid := (resp.get? "response-id").getD (.str "")
+  match resp.get? "no-path" with
+  | some np =>
+    let reason := (np.get? "no-path").getD (.str "")
+    let base : List (String × J α) := [("response-id", rid), ("Pass?", reason)]
+    match reason with
+    | .str r =>
+      if blockingNoPath.contains r then return (⟨base⟩, none, .str "")
+      else
+        let props := (np.get? "path-properties").getD .null
+        let pros := ((props.get? "path-route-objects").bind J.items?).getD []
+        let (src, dst, ty, md) ← srceDestTrx pros 1 2
+        let (vals, _) ← jsonToParams props ty md lib margin
+        let rev ← match (props.get? "z-a-path-metric").bind J.items? with
+          | some zm => do let l ← jsonToPathMetric zm; pure (revFields.zip l)
+          | none => pure []
+        let fields := base ++ [("source", .str src), ("destination", .str dst), ("transponder-type", .str ty),
+                                ("transponder-mode", jOptStr md)] ++ (paramFields.zip vals) ++ rev
+        -- `values['path_bandwidth'] = ''`
+        return (⟨fields.map (fun kv => if kv.1 == "path_bandwidth" then (kv.1, .str "") else kv)⟩, none, .str "")
+    | _ => throw "TypeError"
+  | none =>
+    let props := (resp.get? "path-properties").getD .null
+    let pros := ((props.get? "path-route-objects").bind J.items?).getD []
+    let (src, dst, ty, md) ← srceDestTrx pros 2 3
+    let (vals, cost) ← jsonToParams props ty md lib margin
+    let get (k : String) : J α := ((paramFields.zip vals).lookup k).getD (.str "")
+    let minosnr := get "min required OSNR (inc. margin)"
+    let rsnrMin := get "SNR-0.1nm (min)"
+    let rsnr := get "SNR-0.1nm (average)"
+    let pass ← passFlag rsnrMin rsnr minosnr
+    let q ← quot (get "path_bandwidth") (get "bit rate")
+    let rev ← match (props.get? "z-a-path-metric").bind J.items? with
+      | some zm => do let l ← jsonToPathMetric zm; pure (revFields.zip l)
+      | none => pure []
+    let fields := [("response-id", rid), ("source", .str src), ("destination", .str dst),
+                   ("transponder-type", .str ty), ("transponder-mode", jOptStr md), ("Pass?", .bool pass)]
+                  ++ (paramFields.zip vals) ++ rev
+    return (⟨fields⟩, some q, cost)
+
+end csv
+
+end Gnpy.Response
